@@ -980,6 +980,149 @@ pub mod __verif_waker {
     }
 }
 
+/// Verification hook (`--cfg metrique_verif` only): a real [`Receiver`] with its queue and
+/// flush-waker tracker that is *not* handed to a thread. A harness makes the calls of
+/// [`Receiver::run`] one at a time (drain pass, waker handling, shutdown) and appends / requests
+/// flushes in between, so that the real drain loop can be searched sequentially.
+#[cfg(metrique_verif)]
+#[doc(hidden)]
+pub mod __verif_writer {
+    pub use super::__verif_waker::Status;
+    use super::{
+        BackgroundQueueBuilder, DrainResult, Entry, EntryIoStream, FlushWait, Inner, Receiver,
+        WakerTracker,
+    };
+    #[cfg(metrique_verif_loom)]
+    use super::std;
+    use super::{Arc, ArrayQueue, AtomicBool, Duration, Instant, Parker};
+
+    pub struct Writer<S, E> {
+        receiver: Receiver<S, E>,
+        tracker: WakerTracker,
+        capacity: usize,
+    }
+
+    /// what appenders hold: the queue's shared part
+    pub struct Producer<E>(Arc<Inner<E>>);
+
+    impl<E> Clone for Producer<E> {
+        fn clone(&self) -> Self {
+            Producer(Arc::clone(&self.0))
+        }
+    }
+
+    impl<E> Producer<E> {
+        pub fn push(&self, entry: E) {
+            self.0.push(entry)
+        }
+        pub fn flush_async(&self) -> FlushWait {
+            self.0.flush_async()
+        }
+        pub fn queue_len(&self) -> usize {
+            self.0.queue.len()
+        }
+    }
+
+    impl BackgroundQueueBuilder {
+        /// what `do_build` builds, without the thread
+        pub fn __verif_build_unstarted<S: EntryIoStream, E: Entry>(
+            self,
+            stream: S,
+        ) -> (Producer<E>, Writer<S, E>) {
+            let parker = Parker::default();
+            let unparker = parker.unparker().clone();
+            let (flush_queue_sender, flush_queue_receiver) = std::sync::mpsc::channel();
+            let inner = Arc::new(Inner {
+                name: self.metric_name.unwrap_or_else(|| self.thread_name.clone()),
+                queue: ArrayQueue::new(self.capacity),
+                unparker,
+                flush_queue_sender,
+                recorder: self.metric_recorder,
+            });
+            let receiver = Receiver {
+                metrics_emitted: 0,
+                metric_validation_errors: 0,
+                metric_io_errors: 0,
+                stream,
+                inner: Arc::clone(&inner),
+                flush_interval: self.flush_interval,
+                shutdown_timeout: self.shutdown_timeout,
+                shutdown_signal: Arc::new(AtomicBool::new(false)),
+                parker,
+            };
+            let writer = Writer {
+                receiver,
+                tracker: WakerTracker::new(flush_queue_receiver),
+                capacity: self.capacity,
+            };
+            (Producer(inner), writer)
+        }
+    }
+
+    impl<S: EntryIoStream, E: Entry> Writer<S, E> {
+        /// one `drain_until_deadline` pass; `deadline_passed` decides what the clock check
+        /// after every 32nd entry sees
+        pub fn drain(&mut self, deadline_passed: bool) -> (Status, usize) {
+            let deadline = if deadline_passed {
+                Instant::now()
+            } else {
+                Instant::now() + Duration::from_secs(3600)
+            };
+            let (status, count) = self.receiver.drain_until_deadline(deadline);
+            let status = match status {
+                DrainResult::Drained => Status::Drained,
+                DrainResult::HitDeadline => Status::HitDeadline,
+            };
+            (status, count)
+        }
+
+        /// the `handle_waiting_wakers` call of the run loop, flushing the real stream
+        pub fn handle_waiting_wakers(&mut self, status: Status, entry_count: usize) {
+            let Writer {
+                receiver,
+                tracker,
+                capacity,
+            } = self;
+            tracker.handle_waiting_wakers(
+                || *capacity,
+                || receiver.flush_stream(),
+                match status {
+                    Status::Drained => DrainResult::Drained,
+                    Status::HitDeadline => DrainResult::HitDeadline,
+                },
+                entry_count,
+            )
+        }
+
+        /// the periodic flush at the end of a flush interval
+        pub fn flush_stream(&mut self) {
+            self.receiver.flush_stream()
+        }
+
+        pub fn will_progress_on_drained_queue(&mut self) -> bool {
+            self.tracker.will_progress_on_drained_queue()
+        }
+
+        pub fn waiting(&self) -> usize {
+            self.tracker.waiting_wakers.len()
+        }
+
+        pub fn entries_before_wake(&self) -> usize {
+            self.tracker.entries_before_wake
+        }
+
+        /// what the writer thread does on its way out: `shut_down`, then the tracker (and with
+        /// it every pending flush request) is dropped
+        pub fn shut_down(self) {
+            let Writer {
+                receiver, tracker, ..
+            } = self;
+            receiver.shut_down();
+            drop(tracker);
+        }
+    }
+}
+
 #[cfg(test)]
 #[allow(deprecated)]
 mod tests {
